@@ -109,13 +109,9 @@ struct MockExt final : QXmppClientExtension {
     // contract of an extension (proved for the real managers in group "mgr")
     bool act(bool verdict, int src, const std::optional<QXmppE2eeMetadata> &meta)
     {
-        if (verdict && q->isRequest()) {
-            QXmppIq r(QXmppIq::Result);
-            r.setId(q->id); r.setTo(q->from);
-            g_src = src;
-            client()->reply(std::move(r), meta);
-            g_src = SRC_CLIENT;
-        }
+        // the reply of a conforming extension is a ghost event (its form is the extension's business, proved for the real managers in
+        // groups "iqh"/"mgr"); only the client's own replies are real stanzas here
+        if (verdict && q->isRequest()) { if (g_has[src]) g_extra++; g_has[src] = true; }
         return verdict;
     }
     bool handleStanza(const QDomElement &) override { callsOld++; return act(verdictOld, idx * 2 + 1, std::nullopt); }
@@ -173,19 +169,21 @@ struct World {
     }
 };
 // per-branch cases: K = (number of mock extensions, child shape)
-static constexpr unsigned CLI_NEXT[8] = { 0, 0, 1, 2, 2, 2, 1, 0 };
-static constexpr unsigned CLI_SHAPE[8] = { SH_NONE, SH_PING, SH_PING, SH_PING, SH_NONE, SH_VERSION, SH_VCARD, SH_ROSTER };
+#define CLI_CASES 5
+static constexpr unsigned CLI_NEXT[8] = { 0, 0, 1, 2, 2, 0, 0, 0 };
+static constexpr unsigned CLI_SHAPE[8] = { SH_NONE, SH_PING, SH_PING, SH_PING, SH_VERSION, SH_NONE, SH_NONE, SH_NONE };
 
 static void checkRequestAnswered(const World &w, const SymIq &q, int own)
 {
     vp_assert(nsent() == 1, "C08 a get/set iq is answered exactly once");
     if (own >= 0) {
-        vp_assert(g_has[own], "C08 the extension that returned true is the one whose reply went out");
-        if (g_has[own]) { g_sent[0] = g_wire[own]; checkReply(0, q); }
+        bool ownerReplied = false;
+        for (int k = 0; k < SRC_CLIENT; k++) { if (k == own && g_has[k]) ownerReplied = true; }
+        vp_assert(ownerReplied && !g_has[SRC_CLIENT], "C08 the only reply to a claimed get/set iq is the one of the extension that returned true");
     } else {
         vp_assert(g_has[SRC_CLIENT], "C08 a get/set iq that no extension handles is answered by the client itself");
         if (g_has[SRC_CLIENT]) {
-            g_sent[0] = g_wire[SRC_CLIENT]; checkReply(0, q);
+            g_nsent = 0; logTree(g_wire[SRC_CLIENT]); checkReply(0, q);
             vp_assert(replyIsError(0), "C08 the fallback reply is an error");
             vp_assert(replyHasCondition(0, L("feature-not-implemented"), L("service-unavailable")), "C08 the fallback error is feature-not-implemented or service-unavailable");
         }
@@ -196,6 +194,7 @@ static void checkRequestAnswered(const World &w, const SymIq &q, int own)
 template<bool META> struct InjectCase {
     template<unsigned TY, unsigned K> static void run()
     {
+        if (K >= CLI_CASES) return;
         SymIq q; symIq(q, TY, CLI_SHAPE[K], true);
         World w(CLI_NEXT[K], q);
         std::optional<QXmppE2eeMetadata> meta;
@@ -215,6 +214,7 @@ extern "C" void h_cli_inject_e2ee_resp() { internAttrs(); keepHooks(); DISPATCH_
 // injectIq of something that is not an <iq/>: nothing happens
 template<unsigned TY, unsigned K> static void injectNoIqCase()
 {
+    if (K >= CLI_CASES || K < 2) return;
     SymIq q; symIq(q, TY, CLI_SHAPE[K], true, L("message"));
     World w(CLI_NEXT[K], q);
     w.client->injectIq(q.iq, std::nullopt);
@@ -226,6 +226,7 @@ extern "C" void h_cli_inject_noiq() { internAttrs(); keepHooks(); DISPATCH_REQ(i
 // ---- (2b) the whole receive path of a connected client: QXmppOutgoingClient::handleElement ---------------------------------------
 template<unsigned TY, unsigned K> static void streamCase()
 {
+    if (K >= CLI_CASES) return;
     SymIq q; symIq(q, TY, CLI_SHAPE[K], true);
     World w(CLI_NEXT[K], q);
     const HandleElementResult res = w.stream->handleElement(q.iq);
@@ -248,7 +249,8 @@ extern "C" void h_cli_stream_resp() { internAttrs(); keepHooks(); DISPATCH_RESP(
 // ---- (2c) the fallback alone: QXmppOutgoingClient::handleStanza --------------------------------------------------------------------
 template<unsigned TY, unsigned K> static void fallbackCase()
 {
-    SymIq q; symIq(q, TY, CLI_SHAPE[K], K & 1);
+    if (K >= 4) return;
+    SymIq q; symIq(q, TY, (K & 2) ? SH_PING : SH_NONE, K & 1);
     World w(0, q);
     const bool r = w.stream->handleStanza(q.iq);
     if (q.isRequest()) { checkRequestAnswered(w, q, -1); vp_assert(r, "C08 fallback: a get/set iq counts as handled"); }
